@@ -95,10 +95,10 @@ type Server struct {
 type slaveEvent struct{ schema, name, definer string }
 
 type World struct {
-	s       *Sim
-	servers map[string]*Server
-	version [3]int
-	unknown map[string]int
+	s                 *Sim
+	servers           map[string]*Server
+	version           [3]int
+	unknown           map[string]int
 	binlogTxnsPerFile int
 }
 
